@@ -91,7 +91,64 @@ def features_strategy(draw, tier):
     max_n = 25 if tier == "quick" else 120
     soma = draw(st.integers(0, 9)) != 0
     t = draw(gen_tree.tree_case(min_abs=2.0 ** -10, min_n=1, max_n=max_n, soma_root=soma, mag=1000.0))
-    return {"tree": t, "form": draw(st.sampled_from(["single", "list", "dict"]))}
+    return {"tree": t, "form": draw(st.sampled_from(["single", "list", "dict"])),
+            # the measured tree is derived from another tree that was itself measured first: re-rooted, re-sorted,
+            # joined with a small second tree, or a copy re-parented in place through a node handle
+            "derive": draw(st.sampled_from([None, None, None, "redirect", "sort", "cat", "copy-reparent"])),
+            "derive_sel": [draw(st.integers(0, 10 ** 6)), draw(st.integers(0, 10 ** 6))]}
+
+
+def _measure_everything(tree):
+    """Touch every morphometric of `tree` once (whatever it caches is now cached)."""
+    from swcgeom.analysis import extract_feature
+    from swcgeom.analysis.features import BranchFeatures, FurcationFeatures, NodeFeatures, PathFeatures, TipFeatures
+
+    nf = NodeFeatures(tree)
+    nf.get_count(), TipFeatures(nf).get_count(), FurcationFeatures(nf).get_count()
+    tree.length(), tree.get_tips(), tree.get_furcations(), tree.get_branches(), tree.get_paths()
+    [(nd.is_tip(), nd.is_furcation(), len(nd.children())) for nd in tree]
+    BranchFeatures(tree).get_length(), PathFeatures(tree).get_length()
+    fe = extract_feature(tree)
+    fe.get("tip_count"), fe.get("branch_length")
+    if int(tree.type()[0]) == 1:
+        nf.get_radial_distance(), nf.get_branch_order()
+
+
+def _derive(case, ctx, t, tree):
+    """Returns (table of the derived tree, derived tree)."""
+    from swcgeom.core import Tree, cat_tree, redirect_tree, sort_tree
+
+    how, sel = case["derive"], case["derive_sel"]
+    n = len(t["parents"])
+    ctx.lib("measuring-the-source-tree", _measure_everything, tree)
+    if how == "redirect":
+        k = sel[0] % n
+        if t["type"][k] != t["type"][0]:
+            k = 0 if t["type"][0] != 1 else k  # keep a soma-typed root a soma (re-rooting exchanges the two types)
+        out = ctx.lib("redirect_tree", redirect_tree, tree, k)
+    elif how == "sort":
+        out = ctx.lib("sort_tree", sort_tree, tree)
+    elif how == "cat":
+        m = 3
+        other = Tree(m, id=np.arange(m, dtype=np.int32), pid=np.array([-1, 0, 1], dtype=np.int32), type=np.array([3, 3, 3], dtype=np.int32),
+                     x=np.array([0.5, 1.75, 3.25], dtype=np.float32), y=np.array([0.25, -1.5, 2.0], dtype=np.float32),
+                     z=np.array([0.125, 0.75, -2.5], dtype=np.float32), r=np.ones(m, dtype=np.float32),
+                     tag=np.array([900001, 900002, 900003], dtype=np.int32), w=np.zeros(m, dtype=np.float32))
+        ctx.lib("measuring-the-source-tree", _measure_everything, other)
+        out = ctx.lib("cat_tree", cat_tree, tree, other, sel[0] % n, sel[1] % m)
+    else:
+        out = ctx.lib("tree.copy", tree.copy)
+        movable = [i for i in range(n) if t["parents"][i] != -1]
+        if movable:
+            a = movable[sel[0] % len(movable)]
+            below = models.descendants_or_self(t["parents"], a)
+            cands = [j for j in range(n) if j not in below]
+            ctx.lib("node.pid = v", setattr, out.node(a), "pid", cands[sel[1] % len(cands)])
+    ctx.cls("measured-tree-derived-from-a-measured-tree", "derived-by:" + how)
+    t2 = dict(t, parents=[int(v) for v in out.pid()], type=[int(v) for v in out.type()],
+              x=[float(v) for v in out.x()], y=[float(v) for v in out.y()], z=[float(v) for v in out.z()],
+              r=[float(v) for v in out.r()], tag=[int(v) for v in out.get_ndata("tag")], w=[float(v) for v in out.get_ndata("w")])
+    return t2, out
 
 
 def run_features(case, ctx):
@@ -100,9 +157,11 @@ def run_features(case, ctx):
                                            TipFeatures)
 
     t = case["tree"]
+    tree = gen_tree.build_tree(t)
+    if case.get("derive"):
+        t, tree = _derive(case, ctx, t, tree)
     parents = t["parents"]
     n = len(parents)
-    tree = gen_tree.build_tree(t)
     R = _ref(t)
     tol = _tol(R["scale"])
     ch = R["ch"]
@@ -330,6 +389,20 @@ def run_sholl(case, ctx):
         g2 = ctx.lib("extract_feature.sholl", lambda: extract_feature(tree).get("sholl", steps=k))
         ctx.check(np.array_equal(np.asarray(g2, dtype=np.float64), np.asarray(got, dtype=np.float64)),
                   "front-end/sholl", lambda: f"{g2} vs {got}")
+        # one request naming the same feature more than once with different arguments (list of (name, kwargs) pairs),
+        # and the same extractor asked again afterwards: every entry is answered with its own arguments
+        k2 = k + 1 + k % 3
+        want2 = np.asarray(ctx.lib("sholl.get[int]", sh.get, k2), dtype=np.float64)
+        fe = ctx.lib("extract_feature", extract_feature, tree)
+        both = ctx.lib("extract_feature.get[list of pairs]", fe.get, [("sholl", {"steps": k}), ("node_count", {}), ("sholl", {"steps": k2})])
+        ctx.cls("front-end:same-feature-twice-in-one-request")
+        ctx.check(len(both) == 3 and np.array_equal(np.asarray(both[0], dtype=np.float64), np.asarray(got, dtype=np.float64))
+                  and np.array_equal(np.asarray(both[2], dtype=np.float64), want2),
+                  "front-end/each-entry-of-a-list-request-uses-its-own-arguments",
+                  lambda: f"steps={k}: {both[0]} vs {got}; steps={k2}: {both[2]} vs {want2}")
+        again = ctx.lib("extract_feature.get[dict]", fe.get, {"sholl": {"steps": k2}})
+        ctx.check(np.array_equal(np.asarray(again["sholl"], dtype=np.float64), want2), "front-end/same-extractor-asked-again",
+                  lambda: f"steps={k2}: {again['sholl']} vs {want2}")
 
 
 # ----------------------------------------------------------------------------- L-Measure
@@ -496,9 +569,11 @@ SUBCHECKS = [
     Sub("features", features_strategy, run_features, quick=2000, thorough=20000, shards_quick=4,
         required={"furcations>=2": 150, "zero-length-segment": 80, "non-soma-root": 20, "rootdeg:1": 40,
                   "rootdeg:3+": 40, "single-node": 3, "front-end:list": 50, "front-end:dict": 50,
-                  "branch:zero-length": 5}),
+                  "branch:zero-length": 5, "measured-tree-derived-from-a-measured-tree": 400, "derived-by:redirect": 60,
+                  "derived-by:sort": 60, "derived-by:cat": 60, "derived-by:copy-reparent": 60}),
     Sub("sholl", sholl_strategy, run_sholl, quick=2400, thorough=30000, shards_quick=4,
-        required={"root-off-origin": 200, "rmax>0": 300, "sholl-object-made-with-the-deprecated-step-argument": 100}),
+        required={"root-off-origin": 200, "rmax>0": 300, "sholl-object-made-with-the-deprecated-step-argument": 100,
+                  "front-end:same-feature-twice-in-one-request": 100}),
     Sub("lmeasure", lmeasure_strategy, run_lmeasure, quick=1500, thorough=16000, shards_quick=4,
         required={"binary": 100, "general": 100, "bifurcations>=2": 50}),
     Sub("population", population_strategy, run_population, quick=400, thorough=3000, shards_quick=4,
